@@ -56,7 +56,8 @@ def gen_case(rng):
     existing = {}
     for t in rng.sample(TARGETS, rng.randint(0, 4)):
         p = t if "." in t else t + ".zo"
-        existing[p] = "# existing %s\n\n- keep me\n" % p
+        # an existing file is left alone whatever it holds - also when it is empty
+        existing[p] = rng.choice(["# existing %s\n\n- keep me\n" % p] * 3 + ["", "\n"])
     files.update(existing)
     ops = []
     for _ in range(rng.choice([1, 1, 2, 3])):
